@@ -12,6 +12,13 @@ Fixpoint symbols_of (steps : list QueryTraversalStep) : list node :=
   | [] => []
   end.
 
+(* the scope at which bubbling stopped *)
+Fixpoint resolving_scope (n : node) (steps : list QueryTraversalStep) : node :=
+  match steps with
+  | Super pn :: rest => resolving_scope pn rest
+  | _ => n
+  end.
+
 (* ---------- the association list ---------- *)
 Definition empty_def := mkDef None [].
 
